@@ -33,9 +33,20 @@ class Roles:
                 t = f["ty"]
                 if re.match(r"^core::sync::atomic::Atomic<\*mut \w+>$", t):
                     found["ptr"].append((path, f["name"]))
-                elif re.match(r"^\[core::sync::atomic::Atomic<usize>; \d+\]$", t):
+                elif re.match(r"^\[core::sync::atomic::Atomic<usize>; [\w:]+\]$", t):
                     found["slots"].append((path, f["name"]))
-                    self.n = int(re.search(r"; (\d+)\]", t).group(1))
+                    ln = re.search(r"; ([\w:]+)\]", t).group(1)
+                    if ln.isdigit():
+                        self.n = int(ln)
+                    else:
+                        # the length is a named constant of the module (`[AtomicUsize; SLOTS]`): definition-level types keep the name
+                        for cand in (ln, MOD + ln.split("::")[-1]):
+                            try:
+                                self.n = int(F.const(cand)["val"]); break
+                            except Exception:
+                                continue
+                        if self.n is None:
+                            raise AnchorLost("half lock: length of the reader-slot array (%s) is not a known constant" % ln)
                 elif t == "core::sync::atomic::Atomic<usize>":
                     found["gen"].append((path, f["name"]))
                 elif t.startswith("std::sync::poison::mutex::Mutex<"):
